@@ -673,3 +673,73 @@ Proof.
   - unfold dot_bytes, dot_tokens. rewrite H. reflexivity.
   - apply parse_render_print. eapply dot_ast_ok; eauto.
 Qed.
+
+(* ------------------------------------------------------------------ *)
+(* every requirement of the tree is met exactly once *)
+
+(* requirements stay inside the scheduler of the job, at every level *)
+Fixpoint closed_tree (rq : rmap) (t : jtree) : Prop :=
+  match t with
+  | Atom _ => True
+  | Sched _ kids =>
+      closed rq (map tid kids) /\
+      (fix all (ks : list jtree) : Prop :=
+         match ks with [] => True | k :: ks' => closed_tree rq k /\ all ks' end) kids
+  end.
+
+Lemma closed_tree_Forall rq ks :
+  (fix all (ks : list jtree) : Prop :=
+     match ks with [] => True | k :: ks' => closed_tree rq k /\ all ks' end) ks
+  <-> Forall (closed_tree rq) ks.
+Proof.
+  induction ks as [|k ks IH]; split; intros H; auto.
+  - destruct H as [H1 H2]. constructor; auto. apply IH. exact H2.
+  - inversion H; subst. split; auto. apply IH. assumption.
+Qed.
+
+(* all (job, requirement) pairs of the jobs below the root *)
+Definition all_reqs (rq : rmap) (t : jtree) : list (nat * nat) :=
+  flat_map (fun j => map (fun r => (j, r)) (rq j)) (below t).
+
+Definition ends (p : jtree * jtree) : nat * nat := (tid (fst p), tid (snd p)).
+
+Lemma flat_map_flat_map {A B C} (f : B -> list C) (g : A -> list B) l :
+  flat_map f (flat_map g l) = flat_map (fun x => flat_map f (g x)) l.
+Proof.
+  induction l as [|a l IH]; [reflexivity|]. cbn [flat_map]. rewrite flat_map_app, IH. reflexivity.
+Qed.
+
+Lemma level_reqs_ends rq kids k : (forall r, In r (rq (tid k)) -> In r (map tid kids)) ->
+  map ends (level_reqs rq kids k) = map (fun r => (tid k, r)) (rq (tid k)).
+Proof.
+  unfold level_reqs. induction (rq (tid k)) as [|r l IH]; intros Hc; [reflexivity|].
+  cbn [flat_map map]. destruct (find_kid_some kids r (Hc r (or_introl eq_refl))) as [kr Ef].
+  rewrite Ef. destruct (find_kid_In _ _ _ Ef) as [_ Hr]. cbn [app map]. unfold ends at 1.
+  cbn [fst snd]. rewrite Hr. f_equal. apply IH. intros x Hx. apply Hc. right. exact Hx.
+Qed.
+
+Lemma map_flat_map {A B C} (f : B -> C) (g : A -> list B) l :
+  map f (flat_map g l) = flat_map (fun x => map f (g x)) l.
+Proof.
+  induction l as [|a l IH]; [reflexivity|]. cbn [flat_map]. rewrite map_app, IH. reflexivity.
+Qed.
+
+Theorem req_list_exact rq t : tree_wf rq t -> closed_tree rq t ->
+  Permutation (map ends (req_list rq t)) (all_reqs rq t).
+Proof.
+  induction t as [i|i kids IH] using jtree_ind2; intros Hwf Hcl; [constructor|].
+  pose proof (order_perm _ _ _ Hwf) as Hp.
+  destruct (tree_wf_kids _ _ _ Hwf) as (Hok & Hnd & Hkids).
+  cbn [closed_tree] in Hcl. destruct Hcl as [Hc Hcl]. apply closed_tree_Forall in Hcl.
+  cbn [req_list]. unfold all_reqs, below. cbn [kids_of].
+  rewrite flat_map_flat_map, map_flat_map.
+  etransitivity; [apply Permutation_flat_map; exact Hp|].
+  rewrite flat_map_map. apply perm_flat_map_pw.
+  rewrite Forall_forall in *. intros k Hk.
+  rewrite lookup_app_find, (find_kid_self kids k Hnd Hk). cbn [option_map].
+  rewrite map_app, tree_ids_below. cbn [flat_map].
+  rewrite level_reqs_ends.
+  - etransitivity; [apply Permutation_app_comm|]. apply Permutation_app_head.
+    apply (IH k Hk (Hkids k Hk) (Hcl k Hk)).
+  - intros r Hr. apply (Hc (tid k) r); [apply in_map; exact Hk|exact Hr].
+Qed.
